@@ -23,18 +23,23 @@ from framework import Prop, canon_json
 TAGS = 2000   # tags of loop m of a multi-loop module are in [TAGS*m, TAGS*(m+1))
 T1 = "memref<1xi8, strided<[1], offset: ?>>"
 T = "memref<1xi8>"
-BIG = "memref<64xi8>"
+BIG = "memref<256xi8>"
 PASSES = "construct-pipeline,pipeline-duplicate-buffers,unroll-pipeline"
 
 
-def run_real(src):
-    """the three real passes, in process, with verification after each (like snax-opt); returns the module"""
+def passes_of(case):
+    """nests go through the real flow: pipeline-canonicalize-for (step 1, merged nest) in front of the three passes"""
+    return ("pipeline-canonicalize-for," + PASSES) if case.get("kind") == "nest" else PASSES
+
+
+def run_real(src, passes=None):
+    """the real passes, in process, with verification after each (like snax-opt); returns the module"""
     from snaxc.transforms import get_all_snax_passes
     ctx = snaxrun.fresh_ctx()
     from xdsl.parser import Parser
     module = Parser(ctx, src).parse_module()
     allp = get_all_snax_passes()
-    for name in PASSES.split(","):
+    for name in (passes or PASSES).split(","):
         allp[name]()().apply(ctx, module)
         module.verify()
     return module
@@ -166,11 +171,73 @@ def shifted(case, m):
 _LOCAL = __import__("re").compile(r"%((?:lb|ub|step)[pq]?|i|j|k|u|eub|[tcoz]\d+|e\d+_\d+)\b")
 
 
+def in_func(text, name):
+    body = "\n".join("  " + l for l in text.rstrip("\n").split("\n"))
+    return f"func.func @{name}() {{\n{body}\n  func.return\n}}\n"
+
+
 def render_any(case):
-    """MLIR of a case; kind 'multi': several generated loops one after the other in ONE module"""
+    """MLIR of a case; kind 'multi': several generated loops one after the other in ONE module (with 'infunc': each loop
+    in a function of its own, i.e. a second / third function of the module); kind 'nest': render_nest"""
+    if case.get("kind") == "nest":
+        return render_nest(case)
     if case.get("kind") != "multi":
-        return render(case)
-    return "".join(_LOCAL.sub(lambda mo, m=m: f"%{mo.group(1)}_L{m}", render(sub)) for m, sub in enumerate(subcases(case)))
+        return in_func(render(case), "f0") if case.get("infunc") else render(case)
+    texts = [_LOCAL.sub(lambda mo, m=m: f"%{mo.group(1)}_L{m}", render(sub)) for m, sub in enumerate(subcases(case))]
+    if case.get("infunc"):
+        texts = [in_func(t, f"f{m}") for m, t in enumerate(texts)]
+    return "".join(texts)
+
+
+def render_nest(case):
+    """a perfect loop nest around the stages (the real flow: pipeline-canonicalize-for makes the steps 1 and merges the nest
+    into one loop before construct-pipeline). case['nest'] = [[trip count, step, exact], ...] outermost first; the tiles view
+    element (flat iteration number) + off of their arrays."""
+    inner = render(dict(case, lb=[0, True], ub=[0, True], step=[1, True]))
+    head, rest = inner.split("scf.for %i = %lb to %ub step %step {\n")
+    body = rest[:rest.rindex("}")]
+    head = "\n".join(l for l in head.split("\n") if not l.startswith(("%ub =", "%step =")))
+    L = [head.rstrip("\n")]
+    dims = case["nest"]
+    # iteration VALUES of level d are 0, s, 2s, ...: spans multiply up to a flat index
+    spans = [dm[0] * dm[1] + 1 for dm in dims]
+    opens, flat = [], []
+    for d, dim in enumerate(dims):
+        n, s, exact = dim[0], dim[1], dim[2]
+        special = dim[3] if len(dim) > 3 else None
+        ubv = n * s if exact or n == 0 else n * s - (s - 1)   # same trip count, upper bound not a multiple of the step
+        lbname = "%lb"
+        if special == "lb1":
+            # this level does not start at 0: MergeForLoops leaves it alone, the loops below it are pipelined inside it
+            L.append(f"%lb{d} = arith.constant 1 : index")
+            lbname, ubv = f"%lb{d}", ubv + 1
+        if special == "dynub":
+            L.append(f'%ub{d} = "test.op"() {{dyn = {ubv} : i64}} : () -> index')
+        else:
+            L.append(f"%ub{d} = arith.constant {ubv} : index")
+        L.append(f"%st{d} = arith.constant {s} : index")
+        iv = "%i" if d == len(dims) - 1 else f"%n{d}"
+        opens.append("  " * d + f"scf.for {iv} = {lbname} to %ub{d} step %st{d} {{")
+        w = 1
+        for x in spans[d + 1:]:
+            w *= x
+        L.append(f"%w{d} = arith.constant {w} : index")
+        flat.append((iv, f"%w{d}"))
+    idx = ["  %f0 = arith.muli " + flat[0][0] + ", " + flat[0][1] + " : index"]
+    for d in range(1, len(dims)):
+        idx.append(f"  %g{d} = arith.muli {flat[d][0]}, {flat[d][1]} : index")
+        idx.append(f"  %f{d} = arith.addi %f{d - 1}, %g{d} : index")
+    last = f"%f{len(dims) - 1}"
+    # the tiles of render() use %i as index: use the flat index instead
+    body = _NESTI.sub(last, body)
+    ind = "  " * (len(dims) - 1)
+    text = "\n".join(L) + "\n" + "\n".join(opens) + "\n" + "\n".join(ind + l for l in idx) + "\n" + \
+        "\n".join(ind + l for l in body.rstrip("\n").split("\n")) + "\n" + \
+        "\n".join("  " * d + "}" for d in reversed(range(len(dims)))) + "\n"
+    return text
+
+
+_NESTI = __import__("re").compile(r"%i\b(?=[\],])")
 
 
 def subcases(case):
@@ -212,7 +279,8 @@ class Walker:
         self.loop = None   # symbolic: (lb value, [epochs of the body])
         if symbolic:
             want = "i" if which is None else f"i_L{which}"
-            fors = [o for o in self.block.ops if isinstance(o, scf.ForOp) and _hint(o.body.block.args[0]) == want]
+            blocks = [self.block] + [o.body.block for o in self.block.ops if o.name == "func.func"]
+            fors = [o for b in blocks for o in b.ops if isinstance(o, scf.ForOp) and _hint(o.body.block.args[0]) == want]
             if len(fors) != 1:
                 raise Unrecognised(f"{len(fors)} top-level loops")
             self.for_op = fors[0]
@@ -257,6 +325,22 @@ class Walker:
                 env[op.result] = self._sub(env[op.lhs], env[op.rhs])
             elif isinstance(op, arith.AddiOp):
                 env[op.result] = self._add(env[op.lhs], env[op.rhs])
+            elif isinstance(op, arith.MuliOp):
+                if self.symbolic:
+                    env[op.result] = ("opaque", 0)
+                else:
+                    env[op.result] = env[op.lhs] * env[op.rhs]
+            elif isinstance(op, arith.DivUIOp):
+                if self.symbolic:
+                    env[op.result] = ("opaque", 0)
+                else:
+                    if env[op.lhs] < 0:
+                        self.neg.append(env[op.lhs])
+                    env[op.result] = env[op.lhs] // env[op.rhs]
+            elif op.name == "func.func":
+                self.walk(op.body.block, top=top)   # the loops of a case may sit in functions of the module
+            elif op.name == "func.return":
+                pass
             elif isinstance(op, arith.RemUIOp):
                 x, m = env[op.lhs], env[op.rhs]
                 if self.symbolic:
@@ -662,7 +746,26 @@ def multi_case(rng):
             # mostly long enough for the steady-state loop to run at least twice
             c = chain_case(rng, S, rng.randrange(S + 1, 9) if rng.random() < 0.85 else rng.randrange(S - 1, 8), noise=rng.random() < 0.3)
         loops.append(c)
-    return {"kind": "multi", "loops": loops}
+    return {"kind": "multi", "loops": loops, "infunc": rng.random() < 0.5}
+
+
+def nest_case(rng):
+    """a perfect nest of 1..3 constant loops (steps 1..3, upper bounds not always multiples of the step, trip counts that
+    differ between the levels) around the stages: the real flow merges it with pipeline-canonicalize-for, then pipelines"""
+    depth = rng.choice([1, 2, 2, 2, 3])
+    while True:
+        dims = [[rng.choice([0, 1, 2, 2, 3, 3, 4, 5]), rng.choice([1, 1, 2, 3]), rng.random() < 0.6] for _ in range(depth)]
+        if depth > 1 and rng.random() < 0.3:
+            d = rng.randrange(0, depth - 1)
+            dims[d] = [max(dims[d][0], 1), dims[d][1], True, rng.choice(["dynub", "lb1"])]
+        span = 1
+        for dm in dims:
+            span *= dm[0] * dm[1] + 1
+        if span <= 200:
+            break
+    c = chain_case(rng, rng.choice([2, 3, 3, 4]), 0, noise=rng.random() < 0.3)
+    c["tiles"] = [[t[0], t[1]] for t in c["tiles"]]
+    return dict(c, kind="nest", nest=dims)
 
 
 def skip_case(rng, S, N):
@@ -780,17 +883,20 @@ class C15(Prop):
         r0 = random.Random(rng.getrandbits(48))
         for _ in range(5 if tier == "quick" else 60):
             yield multi_case(r0)
+        for _ in range(12 if tier == "quick" else 150):
+            yield nest_case(r0)
         for _ in range(4 if tier == "quick" else 40):
             S3 = r0.choice([3, 3, 4, 5])
             yield skip_case(r0, S3, r0.randrange(S3 + 1, 9))
-        n = 260 if tier == "quick" else 6000
+        n = 240 if tier == "quick" else 6000
         for _ in range(n):
             r = random.Random(rng.getrandbits(48))
             S = r.choice([2, 2, 3, 3, 3, 4, 4, 1, 5])
             N = r.randrange(0, 9)
             u = r.random()
             if u < 0.48:
-                yield chain_case(r, S, N)
+                c = chain_case(r, S, N)
+                yield dict(c, infunc=True) if r.random() < 0.15 else c
             elif u < 0.52:
                 yield multi_case(r)
             elif u < 0.55:
@@ -817,7 +923,14 @@ class C15(Prop):
             snaxrun.parse(src).verify()
         except Exception as e:
             return {"invalid_input": type(e).__name__}
-        out = run_real(src)
+        out = run_real(src, passes_of(case))
+        if case.get("kind") == "nest":
+            # the merged loop's index arithmetic (div / rem / mul) is outside the slot vocabulary: only the decision is
+            # compared with the model (of the merged loop: lb 0, step 1, ub = product of the trip counts); the oracle runs
+            # the nest and the pipelined result
+            n_in = sum(1 for t in case["body"] if t[0] == "op")
+            n_out = sum(1 for o in out.walk() if "tag" in o.attributes)
+            return {"nest": "pipelined" if n_out > n_in else "declined"}   # pipelined: the stage ops were cloned
         if case.get("kind") == "multi":
             return {"multi": [self.impl_one(sub, out, m) for m, sub in enumerate(subcases(case))]}
         return self.impl_one(case, out, None)
@@ -836,7 +949,16 @@ class C15(Prop):
 
     # -- model ----------------------------------------------------------------------------------
     def requests(self, case):
-        return [self.request_one(sub) for sub in subcases(case)]
+        if case.get("kind") == "nest":
+            # the loop ConstructPipeline sees: the innermost loop merged with all levels below the last level that
+            # MergeForLoops must leave alone (run-time bound, lower bound 1)
+            n = 1
+            for dim in case["nest"]:
+                n = 1 if len(dim) > 3 and dim[3] else n * dim[0]
+            return [self.request_one(dict(case, lb=[0, True], step=[1, True], ub=[n, True]))]
+        if case.get("kind") == "multi":
+            return [{"fn": "c15.runModule", "args": {"loops": [self.request_one(sub)["args"] for sub in subcases(case)]}}]
+        return [self.request_one(case)]
 
     def request_one(self, case):
         def v(name):
@@ -852,12 +974,24 @@ class C15(Prop):
             snaxrun.parse(render_any(case)).verify()
         except Exception as e:
             return {"invalid_input": type(e).__name__}
+        if case.get("kind") == "nest":
+            a = answers[0]
+            if "err" in a:
+                return {"model_error": a["err"]}
+            r = a["ok"]
+            return r if "raised" in r else {"nest": "pipelined" if "pipelined" in r else "declined"}
         if case.get("kind") == "multi":
             # the pattern objects of the passes are applied to one loop after the other: each loop is transformed as if
             # it were alone in the module; an exception for one loop is an exception of the run
-            outs = [self.model_one(sub, a) for sub, a in zip(subcases(case), answers)]
+            # (Lean: runModule; runModule_get proves that every loop of a module is transformed as if it were alone)
+            a = answers[0]
+            if "err" in a:
+                return {"model_error": a["err"]}
+            if isinstance(a["ok"], dict):
+                return a["ok"]   # raised
+            outs = [self.model_one(sub, {"ok": o}) for sub, o in zip(subcases(case), a["ok"])]
             for o in outs:
-                if "raised" in o or "model_error" in o:
+                if "model_error" in o:
                     return o
             return {"multi": outs}
         return self.model_one(case, answers[0])
@@ -924,7 +1058,7 @@ class C15(Prop):
             return []
         if races(e_in) or neg_in:
             return []  # the input is outside the quantifier (racy between its own barriers)
-        out = run_real(src)
+        out = run_real(src, passes_of(case))
         try:
             e_out, neg_out = machine_epochs(out, case)
         except Unrecognised as e:
@@ -971,6 +1105,8 @@ class C15(Prop):
     def nontrivial(self, case, impl_out):
         if isinstance(impl_out, dict) and "multi" in impl_out:
             return any("pipelined" in o for o in impl_out["multi"])
+        if isinstance(impl_out, dict) and "nest" in impl_out:
+            return impl_out["nest"] == "pipelined"
         return isinstance(impl_out, dict) and "pipelined" in impl_out
 
     def stats_key(self, case, impl_out):
@@ -979,9 +1115,22 @@ class C15(Prop):
             return f"{k}:raised:{impl_out['raised']}"
         if isinstance(impl_out, dict) and "multi" in impl_out:
             return f"{k}:{len(impl_out['multi'])} loops:{sum('pipelined' in o for o in impl_out['multi'])} pipelined"
+        if isinstance(impl_out, dict) and "nest" in impl_out:
+            sp = "unmerged level:" if any(len(d) > 3 and d[3] for d in case["nest"]) else ""
+            return f"{k}:depth {len(case['nest'])}:{sp}{impl_out['nest']}"
         return k
 
     def shrink(self, case):
+        if case.get("kind") == "nest":
+            dims = case["nest"]
+            for d in range(len(dims)):
+                if len(dims) > 1:
+                    yield dict(case, nest=dims[:d] + dims[d + 1:])
+                if dims[d][0] > 0:
+                    yield dict(case, nest=dims[:d] + [[dims[d][0] - 1] + dims[d][1:]] + dims[d + 1:])
+                if dims[d][1] > 1:
+                    yield dict(case, nest=dims[:d] + [[dims[d][0], 1, True] + dims[d][3:]] + dims[d + 1:])
+            return
         if case.get("kind") == "multi":
             loops = case["loops"]
             if len(loops) == 1:
